@@ -50,14 +50,17 @@ inductive Kind where
   | fin                  -- `writer.finalise(parts)`        (_s3.py:308-316)
   deriving DecidableEq, Repr
 
-/-! ## Local variant (`_ensure_init`, branch `client is None`, _s3.py:262-274) -/
+/-! ## Local variant (`_ensure_init`, branch `client is None`, _s3.py:262-274, and the lazy
+creation of the process-wide lock, `_mpu_local_lock`, _s3.py:23-28) -/
 namespace Local
 
 /-- Program counter: the shared operation the thread performs next. -/
 inductive PC where
   | start            -- `if mpu.started` (265): reads `mpu.uploadId`
   | askClient        -- `_dask_client()` (268) → `get_client()` raises ValueError → `None`
-  | acquire          -- `with _mpu_local_lock():` (271) – blocks while the lock is held
+  | lockGet          -- `_mpu_local_lock`: `_state.get(k, None)` (24)
+  | lockSetdefault   -- `_state.setdefault("mpu_lock", Lock())` (28), one atomic dict operation
+  | acquire          -- `with <that lock>:` (271) – blocks while the lock object is held
   | recheck          -- repaired code only: `mpu.started` re-read under the lock
   | initAssert       -- `initiate`: `assert self.uploadId == ""` (111)
   | create           -- `s3.create_multipart_upload(...)` (114)
@@ -71,20 +74,39 @@ inductive PC where
   | failed           -- raised (AssertionError)
   deriving DecidableEq, Repr
 
+/-- Lock objects are named by the thread whose `Lock()` call created them (a thread
+creates at most one).  Initially `_state` holds no lock. -/
 structure State where
-  uploadId : Nat := 0          -- `mpu.uploadId`, `0` = `""`
-  lock : Option Nat := none    -- holder of the process-wide lock
-  creates : Nat := 0           -- number of `create_multipart_upload` calls so far
-  calls : List Call := []      -- client calls, most recent first
+  uploadId : Nat := 0               -- `mpu.uploadId`, `0` = `""`
+  slot : Option Nat := none         -- the lock object stored in `_state["mpu_lock"]`
+  mylock : Nat → Nat := fun t => t  -- the lock object `_mpu_local_lock()` returned to thread `t`
+  locks : Nat → Option Nat := fun _ => none  -- holder of each lock object
+  creates : Nat := 0                -- number of `create_multipart_upload` calls so far
+  calls : List Call := []           -- client calls, most recent first
   pc : Nat → PC := fun _ => .start
 
 structure Cfg where
   kind : Nat → Kind
   /-- `true`: repaired code (re-check `mpu.started` under the lock); `false`: as found (F5). -/
   recheck : Bool := true
+  /-- `true`: the code as it is (`_state.setdefault`, atomic); `false`: a check-then-store
+  (`_state[k] = Lock()`), kept to show what the atomicity is needed for. -/
+  atomicLock : Bool := true
 
 def State.goto (s : State) (t : Nat) (p : PC) : State :=
   { s with pc := fun i => if i = t then p else s.pc i }
+
+def State.setMy (s : State) (t : Nat) (l : Nat) : State :=
+  { s with mylock := fun i => if i = t then l else s.mylock i }
+
+def State.setHolder (s : State) (l : Nat) (h : Option Nat) : State :=
+  { s with locks := fun i => if i = l then h else s.locks i }
+
+/-- holder of the lock object that is stored in `_state` -/
+def State.held (s : State) : Option Nat :=
+  match s.slot with
+  | none => none
+  | some l => s.locks l
 
 def init : State := {}
 
@@ -92,10 +114,18 @@ def init : State := {}
 def step (cfg : Cfg) (s : State) (t : Nat) : State :=
   match s.pc t with
   | .start => s.goto t (if s.uploadId ≠ 0 then .useAssert else .askClient)
-  | .askClient => s.goto t .acquire
+  | .askClient => s.goto t .lockGet
+  | .lockGet =>
+    match s.slot with
+    | some l => (s.setMy t l).goto t .acquire
+    | none => s.goto t .lockSetdefault
+  | .lockSetdefault =>
+    match cfg.atomicLock, s.slot with
+    | true, some l => (s.setMy t l).goto t .acquire
+    | _, _ => ({ s with slot := some t }.setMy t t).goto t .acquire
   | .acquire =>
-    match s.lock with
-    | none => { s with lock := some t }.goto t (if cfg.recheck then .recheck else .initAssert)
+    match s.locks (s.mylock t) with
+    | none => (s.setHolder (s.mylock t) (some t)).goto t (if cfg.recheck then .recheck else .initAssert)
     | some _ => s
   | .recheck => s.goto t (if s.uploadId ≠ 0 then .release true else .initAssert)
   | .initAssert => s.goto t (if s.uploadId = 0 then .create else .release false)
@@ -103,7 +133,7 @@ def step (cfg : Cfg) (s : State) (t : Nat) : State :=
     { s with creates := s.creates + 1, calls := .create (s.creates + 1) :: s.calls }.goto t
       (.setId (s.creates + 1))
   | .setId id => { s with uploadId := id }.goto t (.release true)
-  | .release ok => { s with lock := none }.goto t (if ok then .useAssert else .failed)
+  | .release ok => (s.setHolder (s.mylock t) none).goto t (if ok then .useAssert else .failed)
   | .useAssert => s.goto t (if s.uploadId ≠ 0 then .readId else .failed)
   | .readId => s.goto t (.call s.uploadId)
   | .call id =>
@@ -123,7 +153,7 @@ def run (cfg : Cfg) (sched : List Nat) : State := runFrom cfg init sched
 def enabled (s : State) (t : Nat) : Bool :=
   match s.pc t with
   | .done | .failed => false
-  | .acquire => s.lock.isNone
+  | .acquire => (s.locks (s.mylock t)).isNone
   | _ => true
 
 /-- The shared operation performed at a program point, as observed by the scheduler. -/
@@ -132,7 +162,9 @@ def label (cfg : Cfg) (s : State) (t : Nat) : String :=
   | .start | .recheck | .initAssert | .useAssert | .readId => "rd"
   | .setId _ => "wr"
   | .askClient | .askClient2 => "gc"
-  | .acquire => if s.lock.isNone then "acq" else "acq!"
+  | .lockGet => "sget"
+  | .lockSetdefault => if cfg.atomicLock then "ssd" else "sset"
+  | .acquire => if (s.locks (s.mylock t)).isNone then "acq" else "acq!"
   | .release _ => "rel"
   | .create => "create"
   | .call _ => match cfg.kind t with | .write _ => "upload" | .fin => "complete"
